@@ -222,11 +222,11 @@ def run(ch: Choices, focus: str = "C16", params: Optional[dict] = None) -> dict:
             # interpreted engine finishes within its step budget, is a call that does not return
             verdict = interpreted_returns(model, cfg, mode) if (want and not first and burnt >= HANG_CPU_SECONDS) else None
             if verdict is True:
-                msg = ctx + f"no answer after {TIMEOUT:.0f}s and {burnt:.0f}s of CPU, the interpreted engine answers the same call within {e1_engine.SOLVER_BUDGET} simulated steps"
+                msg = ctx + f"no answer after {TIMEOUT:.0f}s and {burnt:.0f}s of CPU, the interpreted engine answers the same call within {e1_engine.step_budget(model, cfg)} simulated steps"
                 viol("C03" if mode[0] in ("minimize", "maximize") else "C02", "compiled-call-does-not-return", msg)
                 viol("C04", "compiled-call-does-not-return", msg)
             elif verdict == "budget":
-                msg = ctx + f"no answer after {TIMEOUT:.0f}s and {burnt:.0f}s of CPU, and the interpreted engine exceeds {e1_engine.SOLVER_BUDGET} simulated steps on the same call"
+                msg = ctx + f"no answer after {TIMEOUT:.0f}s and {burnt:.0f}s of CPU, and the interpreted engine exceeds {e1_engine.step_budget(model, cfg)} simulated steps on the same call"
                 viol("C03" if mode[0] in ("minimize", "maximize") else "C02", "call-does-not-return", msg)
                 viol("C04", "step-budget", msg)
             else:
@@ -254,7 +254,7 @@ def interpreted_returns(model, cfg, mode) -> bool:
     if not os.environ.get("NUMBA_DISABLE_JIT"):
         return False
     CLOCK.install()
-    CLOCK.set_budget(e1_engine.SOLVER_BUDGET)
+    CLOCK.set_budget(e1_engine.step_budget(model, cfg))
     try:
         solver = nucsio.build_solver(nucsio.build_problem(model), cfg)
         if mode[0] == "find_all":
